@@ -869,6 +869,10 @@ func primSetPriv(m *M, fn *ssa.Function, a []Value) Value {
 	if !ok || iv.T == nil || !types.AssignableTo(iv.T, t) {
 		abortf("vsetPriv: value not assignable to field type %s", t)
 	}
+	if _, isIface := under(t).(*types.Interface); isIface {
+		m.st.store(p, iv) // an interface-typed field holds the boxed value
+		return nil
+	}
 	m.st.store(p, iv.V)
 	return nil
 }
